@@ -76,6 +76,32 @@ Proof. intros. unfold required_covered_b. apply forallb_app. Qed.
 
 Ltac conj := repeat match goal with |- andb _ _ = true => apply andb_true_intro; split end.
 
+(** MsgWriteScope with the value-owner fields passes its row of the executable table *)
+Lemma write_scope_full_doc_sound : forall e ex pr roles signers,
+  outer_accept e (OWriteScopeFull ex pr roles) signers = true ->
+  doc_sound e (OWriteScopeFull ex pr roles) signers = true.
+Proof.
+  intros e ex pr roles signers H.
+  pose proof (write_scope_full_contract_rule _ _ _ _ _ H) as HC. unfold doc_used in HC.
+  destruct (write_scope_full_sound _ _ _ _ _ H) as [Hreq Hpool].
+  rewrite write_scope_full_accept in H.
+  destruct (wsf_inv _ _ _ _ _ H) as (u1 & u2 & HV & _ & Hor).
+  cbn [doc_parties doc_required_addrs doc_role_pool] in *.
+  unfold doc_sound. cbn [doc_sound_gen].
+  assert (Hvr : forallb (covered_b e signers) (vo_required ex pr) = true).
+  { apply all_covered_b_spec. intros a Ha. apply Hreq. apply in_or_app. now left. }
+  rewrite Hvr. cbn [andb].
+  destruct Hor as [[Hov _]|(Hov & Hr & Hp & Hor)]; rewrite Hov in *.
+  - now apply contract_b.
+  - rewrite (vrp_b _ _ Hr), (prov_b _ _ Hp). cbn [andb].
+    destruct Hor as [(Hru & ds & HVP & _)|[(Hru & Hn & _)|(Hru & Hn & ds & HVS & _)]]; rewrite Hru in *.
+    + destruct (parties_signed_sound _ _ _ _ _ _ HVP) as [H1 H2].
+      conj; [now apply required_covered_b_spec|now apply roles_signed_b_spec|now apply contract_b].
+    + rewrite Hn in *. now apply contract_b.
+    + rewrite Hn in *. conj; [|now apply contract_b].
+      apply all_covered_b_spec. intros a Ha. apply Hreq. apply in_or_app. now right.
+Qed.
+
 (** ** Every accepted message passes the whole executable table *)
 Theorem outer_doc_sound : forall e op signers,
   outer_accept e op signers = true -> doc_sound e op signers = true.
@@ -96,7 +122,9 @@ Proof.
     |rollup owners session old roles
     |rollup owners roles
     |rollup owners roles
-    |vos proposed]; cbn [outer_accept doc_parties doc_sound_gen] in *.
+    |vos proposed
+    |ex pr roles]; try (now apply write_scope_full_doc_sound);
+    cbn [outer_accept doc_parties doc_sound_gen] in *.
   - apply andb_prop in H as [H _]. apply andb_prop in H as [H Hp]. apply andb_prop in H as [_ Hr].
     conj; [now apply vrp_b|now apply prov_b|now apply contract_b_false].
   - apply andb_prop in H as [H HX]. apply andb_prop in H as [H Hp]. apply andb_prop in H as [_ Hr].
@@ -206,7 +234,7 @@ Proof. intros signers l1 l2 H1 H2 p Hp Ho. apply in_app_or in Hp as [Hp|Hp]; aut
 
 (** ** Endpoint completeness: everyone the table names signs directly *)
 Theorem outer_complete_direct : forall e op signers,
-  doc_wellformed op = true -> enforces_contract_rule op = true ->
+  doc_wellformed op = true -> direct_with_contracts op = true ->
   doc_direct_P e op signers ->
   contract_rule e (doc_used is_party_signer op) signers ->
   outer_accept e op signers = true.
@@ -220,7 +248,9 @@ Proof.
     |rollup owners session old roles
     |rollup owners roles
     |rollup owners roles
-    |vos proposed]; cbn [outer_accept doc_parties doc_direct_P doc_wellformed] in *.
+    |vos proposed
+    |ex pr roles]; try discriminate;
+    cbn [outer_accept doc_parties doc_direct_P doc_wellformed] in *.
   - destruct HD as [Hr Hp]. apply andb_prop in Hwf as [Hwf1 Hwf2].
     conj; [exact Hwf1|exact Hwf2|now apply validate_roles_present_spec
       |now apply prov_role_ok_spec|now apply contract_rule_false_b].
@@ -272,7 +302,6 @@ Proof.
     + destruct HD as [H1 H2]. destruct roles as [rs|]; [|destruct H2].
       destruct H2 as [H2 H3]. now apply with_parties_complete_direct.
     + now apply without_direct_all.
-  - discriminate.
 Qed.
 
 (** ** MsgUpdateValueOwners, direct *)
@@ -320,6 +349,39 @@ Proof.
     destruct (Hall _ Hx) as (a & Heq & _ & Hin). now injection Heq as <-.
 Qed.
 
+(** MsgWriteScope with the value-owner fields, direct, no smart contract among the signers *)
+Lemma sc_no_wasm : forall e u signers,
+  (forall s, In s signers -> is_wasm e s = false) ->
+  validate_smart_contract_signers e u signers = true.
+Proof. intros e u signers H. apply sc_loop_spec. now apply contract_rule_no_wasm. Qed.
+
+Lemma write_scope_full_direct : forall e ex pr roles signers,
+  doc_wellformed (OWriteScopeFull ex pr roles) = true ->
+  (forall s, In s signers -> is_wasm e s = false) ->
+  doc_direct_P e (OWriteScopeFull ex pr roles) signers ->
+  outer_accept e (OWriteScopeFull ex pr roles) signers = true.
+Proof.
+  intros e ex pr roles signers Hwf Hnw [Hvo HD]. rewrite write_scope_full_accept. unfold wsf.
+  cbn [doc_wellformed] in Hwf. rewrite Hwf. cbn [andb].
+  destruct (vo_check_direct e ex pr signers) as (u2 & HV).
+  { intros a Ha. rewrite (vo_signers_no_wasm _ _ Hnw). now apply Hvo. }
+  rewrite HV.
+  destruct (doc_only_vo ex pr); [now apply sc_no_wasm|].
+  destruct HD as (Hr & Hp & HX).
+  rewrite (proj2 (validate_roles_present_spec _ _) Hr), (proj2 (prov_role_ok_spec _ _) Hp). cbn [andb].
+  destruct (sv_rollup ex); cbn [negb].
+  - destruct HX as [H1 H2].
+    destruct (proj2 (all_required_parties_signed_spec e (sv_owners ex) (sv_owners ex) roles signers))
+      as (ds & HVP).
+    { split; [intros p Hp' Ho; left; auto|].
+      eapply role_assignment_mono; [|exact H2]. intros a Ha. now left. }
+    rewrite HVP. cbn [option_map]. now apply sc_no_wasm.
+  - destruct (nothing_changes ex pr); cbn [negb]; [now apply sc_no_wasm|].
+    destruct (without_exists e (party_addrs (sv_owners ex)) signers) as (ds & HVS).
+    { intros a Ha. left. apply HX. now apply party_addrs_incl_all. }
+    rewrite HVS. cbn [option_map]. now apply sc_no_wasm.
+Qed.
+
 (** All endpoints, no smart contract among the signers. *)
 Theorem outer_complete_direct_no_contract : forall e op signers,
   doc_wellformed op = true ->
@@ -327,9 +389,9 @@ Theorem outer_complete_direct_no_contract : forall e op signers,
   doc_direct_P e op signers ->
   outer_accept e op signers = true.
 Proof.
-  intros e op signers Hwf Hnw HD. destruct (enforces_contract_rule op) eqn:Henf.
+  intros e op signers Hwf Hnw HD. destruct (direct_with_contracts op) eqn:Henf.
   - apply outer_complete_direct; auto. now apply contract_rule_no_wasm.
-  - destruct op; try discriminate. now apply update_value_owners_direct.
+  - destruct op; try discriminate; [now apply update_value_owners_direct|now apply write_scope_full_direct].
 Qed.
 
 (** ** The checker's [doc_direct] is the [Prop] table (plus well-formedness and no contract) *)
@@ -350,7 +412,8 @@ Proof.
     |rollup owners session old roles
     |rollup owners roles
     |rollup owners roles
-    |vos proposed]; cbn [doc_direct_P].
+    |vos proposed
+    |ex pr roles]; cbn [doc_direct_P].
   - apply andb_prop in HX as [H1 H2].
     split; [now apply roles_present_b_spec|now apply provenance_rule_b_spec].
   - apply andb_prop in HX as [H HX]. apply andb_prop in H as [H1 H2].
@@ -406,6 +469,14 @@ Proof.
     destruct o as [a|]; [|discriminate]. apply andb_prop in H2 as [H2 H3].
     exists a. split; auto. split; [|now apply mem_In].
     apply negb_true_iff in H2. now apply Z.eqb_neq.
+  - apply andb_prop in HX as [H1 HX]. split; [now apply all_sign_b_spec|].
+    destruct (doc_only_vo ex pr); [exact I|].
+    apply andb_prop in HX as [H HX]. apply andb_prop in H as [H2 H3].
+    split; [now apply roles_present_b_spec|]. split; [now apply provenance_rule_b_spec|].
+    destruct (sv_rollup ex).
+    + apply andb_prop in HX as [H4 H5].
+      split; [now apply required_direct_b_spec|now apply roles_direct_b_spec].
+    + now apply all_sign_b_spec.
 Qed.
 
 Theorem doc_direct_sound : forall e op signers,
